@@ -85,6 +85,7 @@ var plans = map[string]propPlan{
 			{Name: "tz-newyork", Shards: 3, TZ: "America/New_York"},
 			{Name: "tz-lordhowe", Shards: 3, TZ: "Australia/Lord_Howe"},
 			{Name: "tz-kathmandu", Shards: 3, TZ: "Asia/Kathmandu"},
+			{Name: "setlocal-berlin", Shards: 2, TZ: "UTC"},
 		}
 	}},
 	"C13":  {"exploration", plain(16)},
@@ -113,7 +114,7 @@ var floors = map[string][]string{
 	"C17": {"gate:structured", "gate:random-valid", "gate:random-invalid", "gate:truncated-or-extended-events", "stream:inject:empty", "stream:inject:truncated-by-1", "stream:inject:random", "stream:inject:first-13", "stream:inject:first-16"},
 	"C10": {"e2e:values-compared"},
 	"C11": {"e2e:values-compared"},
-	"C12": {"e2e:values-compared", "tz="},
+	"C12": {"e2e:values-compared", "tz=", "time.Local-set-by-the-program-after-start"},
 	"C14": {"e2e:values-compared"},
 	"C16": {"charset-pairs", "e2e:several-format-descriptions"},
 	"C20": {"e2e:streamed-transactions", "held:batches", "dotted-names", "big-multibyte-values"},
